@@ -120,14 +120,27 @@ pub fn quote_case(rng: &mut StdRng, c: &Case, rep: &mut Reporter) {
         }
     };
     let gross = comp.return_amount.u128() + comp.swap_fee_amount.u128() + comp.protocol_fee_amount.u128() + comp.burn_fee_amount.u128() + comp.extra_fees_amount.u128();
-    let abs = hash_of(&(n, &c.decs, mag(c.amp as u128), mag(offer), mag(c.res[i]), i, j));
+    judge_quote(c.amp, &c.decs, &c.res, i, j, offer, gross, "kernel", rep);
+}
+
+/// compare one quote (gross output before fees) with the exact solution of the invariant
+pub fn judge_quote(amp: u64, decs: &[u8], res: &[u128], i: usize, j: usize, offer: u128, gross: u128, via: &str, rep: &mut Reporter) {
+    let n = res.len();
+    let sk = skew(res, decs);
+    let regime = (amp as u128) * (n as u128) < 100 || sk >= 100.0;
+    let ctx = || {
+        json!({"via": via, "amp": amp, "decimals": decs, "reserves": res.iter().map(|x| x.to_string()).collect::<Vec<_>>(), "offer_index": i, "ask_index": j, "offer": offer.to_string(), "skew": sk})
+    };
+    struct C<'a> { amp: u64, decs: &'a [u8], res: &'a [u128] }
+    let c = C { amp, decs, res };
+    let abs = hash_of(&(via, n, c.decs, mag(c.amp as u128), mag(offer), mag(c.res[i]), i, j));
     if gross > c.res[j] {
         rep.failed("never_exceeds_reserve", None, format!("gross output {gross} exceeds the ask reserve {}", c.res[j]), witness(ctx()));
         return;
     }
     rep.held("never_exceeds_reserve", abs, || json!({"case": ctx(), "gross": gross.to_string()}));
 
-    let st = SsState::new(c.amp, &c.res, &c.decs, EXTRA);
+    let st = SsState::new(c.amp, c.res, c.decs, EXTRA);
     let d0 = st.d_floor();
     let (out_lo, out_hi) = st.out_bounds(i, j, &bi(offer), &d0);
     let unit = &st.unit[j];
@@ -237,4 +250,84 @@ pub fn shard(cfg: &RunCfg, shard: usize, n: usize) -> Reporter {
         }
     }
     rep
+}
+
+
+/// the same judgement on the deployed path: every executed stableswap hop of W-pool and a
+/// Simulation query per step
+pub struct Deployed {
+    rng: StdRng,
+}
+
+impl Deployed {
+    pub fn new(seed: u64) -> Deployed {
+        Deployed { rng: StdRng::seed_from_u64(seed ^ 0xC19) }
+    }
+}
+
+impl crate::ops::Monitor for Deployed {
+    fn step(&mut self, w: &mut crate::world::World, s: &crate::ops::Step, rep: &mut Reporter) {
+        use crate::poolev::{parse_events, timeline, PoolEv};
+        if s.out.is_ok() {
+            if let Ok(evs) = parse_events(s.out, &w.pm) {
+                if let Ok(tl) = timeline(s.pre, s.post, &evs) {
+                    for t in &tl {
+                        if let (PoolEv::Swap(sw), Some(p)) = (&t.ev, s.pre.pools.get(&t.pool)) {
+                            if let (Some(amp), Some(i), Some(j)) = (p.amp(), p.canon_index(&sw.offer_denom), p.canon_index(&sw.ask_denom)) {
+                                if i == j {
+                                    continue;
+                                }
+                                let before = p.canon(&t.before);
+                                // gross = what left the ask reserve + what stayed in it as fees
+                                let f = &p.info.pool_fees;
+                                let cands = crate::poolev::gross_candidates(sw.return_amount, f);
+                                let g = match sw.extra_fees {
+                                    Some(e) => Some(sw.return_amount + sw.swap_fee + sw.protocol_fee + sw.burn_fee + e),
+                                    None => cands.into_iter().find(|g| {
+                                        let x = crate::poolev::fees_of(*g, f);
+                                        x.swap == sw.swap_fee && x.protocol == sw.protocol_fee && x.burn == sw.burn_fee
+                                    }),
+                                };
+                                if let Some(g) = g {
+                                    judge_quote(amp, &p.info.asset_decimals, &before, i, j, sw.offer_amount, g, "executed hop", rep);
+                                }
+                            }
+                        }
+                    }
+                }
+            }
+        }
+        // a Simulation on a random stableswap pool of the reached state
+        let ss: Vec<&crate::ops::PoolView> = s.post.pools.values().filter(|p| !p.is_cp() && p.funded()).collect();
+        if let Some(p) = ss.choose(&mut self.rng) {
+            let n = p.info.asset_denoms.len();
+            let i = self.rng.gen_range(0..n);
+            let j = (i + 1 + self.rng.gen_range(0..n - 1)) % n;
+            let res = p.canon_reserves();
+            let offer = match self.rng.gen_range(0..6) {
+                0 => self.rng.gen_range(1..100),
+                1 => res[i].saturating_mul(2),
+                _ => log_uniform(&mut self.rng, 1, res[i].max(2)),
+            };
+            let q: Result<mantra_dex_std::pool_manager::SimulationResponse, String> = w.query(
+                &w.pm,
+                &mantra_dex_std::pool_manager::QueryMsg::Simulation {
+                    offer_asset: coin(offer, p.info.asset_denoms[i].clone()),
+                    ask_asset_denom: p.info.asset_denoms[j].clone(),
+                    pool_identifier: p.info.pool_identifier.clone(),
+                },
+            );
+            match q {
+                Ok(q) => {
+                    let g = q.return_amount.u128() + q.swap_fee_amount.u128() + q.protocol_fee_amount.u128() + q.burn_fee_amount.u128() + q.extra_fees_amount.u128();
+                    if g > res[j] {
+                        rep.failed("never_exceeds_reserve", None, format!("Simulation on {} returns {g} > reserve {}", p.info.pool_identifier, res[j]), witness(json!({"pool": p.info.pool_identifier})));
+                    } else {
+                        judge_quote(p.amp().unwrap(), &p.info.asset_decimals, &res, i, j, offer, g, "Simulation query", rep);
+                    }
+                }
+                Err(e) => rep.held("fails_cleanly", hash_of(&("sim", crate::ops::err_class(&e))), || json!({"pool": p.info.pool_identifier, "offer": offer.to_string(), "result": e})),
+            }
+        }
+    }
 }
